@@ -84,6 +84,11 @@ def items_all():
     add("ok", Item("E", [Variant("A", "tuple", [Field("u8")], [dw("some::path")]), Variant("B", "named", [Field("u8", "f", ["x::y"])])]))
     add("ok", Item("E", []))
     add("ok", Item("E", base_variants(), dmetas=[DM("name", "K"), DM("vis", "pubcrate"), DM("derive", paths=["Hash"])]))
+    # an EMPTY generic parameter list `enum E<> {..}` (and a trailing comma `<G0,>`): legal, not generic, no lifetime — accepted by every derive
+    for vs_, tp in ((base_variants(), 0), (base_variants() + [Variant("T", "tuple", [Field("u8")], [DISABLED])], 0), (base_variants(), 1)):
+        eg = Item("E", vs_, tparams=tp)
+        eg.empty_generics = True
+        add("ok-empty-generics", eg)
     # 1 non-enum
     for kind in ("struct", "union"):
         add("nonenum", Item("S", [], kind=kind))
